@@ -50,7 +50,9 @@ JudgeDebRaw(rec) ==
     Checks(IF \A k \in 1..Len(rec.ids) : rec.ids[k] = "error" THEN "rejected" ELSE "loaded",
        << <<~rec.hang, "deb.Load does not return">>,
           <<\A k \in 1..Len(rec.ids) : rec.ids[k] # "panic", "panic">>,
-          <<\A i, j \in 1..Len(rec.ids) : rec.ids[i] = rec.ids[j], "loading the same bytes gives different results">> >>)
+          <<\A i, j \in 1..Len(rec.ids) : rec.ids[i] = rec.ids[j], "loading the same bytes gives different results">>,
+          <<HasField(rec, "overlap") => (~rec.overlap.panic /\ rec.overlap.ok /\ rec.overlap.tar1 = rec.tar_first /\ rec.overlap.tar2 = rec.tar_first),
+            "two loads of the same bytes that are open at the same time do not both deliver what one load alone delivers">> >>)
 
 Judge(rec) ==
     CASE rec.ev = "ar" -> JudgeAr(rec)
